@@ -152,7 +152,10 @@ theorem C21_step (s : St) (hb : s.qos.bySource = true) (hs : SortedSts s.samples
     · exact hs
     · exact nextInstanceLoop_sorted s max m take _ prev hs
   | pub w st => exact ⟨hs, rfl⟩
-  | unpub w => exact ⟨hs, rfl⟩
+  | unpub w =>
+    have e : applyOp s (Op.unpub w) = removePub s w := rfl
+    rw [e]
+    rcases removePub_cases s w with h | ⟨p, o, h⟩ <;> rw [h] <;> exact ⟨hs, rfl⟩
   | rejStatus => exact ⟨hs, rfl⟩
 
 /-- C21: after ANY operation list (any arrival order, any stamps incl. equal and missing ones, any reads and
